@@ -33,7 +33,6 @@ def setup(extra_modules=()):
     inj.set(strax.Chunk, "__repr__", lambda self: "<chunk>")
     inj.inject(strax.plugins.plugin, print=lambda *a, **k: None)
     inj.set(strax.Context, "_update_progress_bar", staticmethod(lambda *a, **k: None))
-    inj.set(strax.DataKey, "__repr__", lambda self: f"<key {self.run_id}-{self.data_type}>")
     return inj
 
 
@@ -470,4 +469,95 @@ def check_tiling(chunks, S, E, label):
         if i:
             prove(c.start == chunks[i - 1].end, label + ":chunks not contiguous")
         for q in range(len(c.data)):
-            prove(sand(c.data["time"][q] >= c.start, c.data["endtime"][q] <= c.end), label + ":row outside its chunk")
+            e = c.data["endtime"][q] if "endtime" in c.data.dtype.names else \
+                c.data["time"][q] + c.data["length"][q] * c.data["dt"][q]
+            prove(sand(c.data["time"][q] >= c.start, e <= c.end), label + ":row outside its chunk")
+
+
+# ======================================================================================
+# real DataDirectory / FileSaver / FileSytemBackend on symbolic data: byte layer -> handle files
+class HandleStore:
+    """strax.save_file / load_file stand-ins: the chunk file is really created (temp name, then rename, like the
+    original) but holds a handle into this in-memory table."""
+
+    def __init__(self):
+        self.table = {}
+        self.n = 0
+
+    def save_file(self, f, data, compressor="zstd"):
+        import os
+
+        assert isinstance(f, str)
+        self.n += 1
+        h = f"h{self.n}"
+        self.table[h] = data
+        with open(f + "_temp", mode="w") as fh:
+            fh.write(h)
+        os.rename(f + "_temp", f)
+        return 8 * (len(data) + 1)
+
+    def load_file(self, f, compressor, dtype):
+        with open(f, mode="r") as fh:
+            h = fh.read().strip()
+        return self.table[h]
+
+
+class JsonShim:
+    """json look-alike that can write symx proxies (placeholders + side table) and numpy ints."""
+
+    def __init__(self):
+        import json
+
+        self._json = json
+        self.side = {}
+        self.n = 0
+        self.JSONDecodeError = json.JSONDecodeError
+
+    def _default(self, o):
+        if core.is_sym(o):
+            self.n += 1
+            key = f"s{self.n}"
+            self.side[key] = o
+            return {"__sym__": key}
+        if isinstance(o, np.integer):
+            return int(o)
+        if isinstance(o, np.floating):
+            return float(o)
+        raise TypeError(f"not JSON serializable: {type(o)}")
+
+    def _hook(self, d):
+        if len(d) == 1 and "__sym__" in d:
+            return self.side[d["__sym__"]]
+        return d
+
+    def dumps(self, obj, **kw):
+        kw.setdefault("default", self._default)
+        return self._json.dumps(obj, **kw)
+
+    def loads(self, s, **kw):
+        kw.setdefault("object_hook", self._hook)
+        return self._json.loads(s, **kw)
+
+    def load(self, f, **kw):
+        return self.loads(f.read(), **kw)
+
+    def dump(self, obj, f, **kw):
+        f.write(self.dumps(obj, **kw))
+
+
+def filestore_shims(inj):
+    """Rebind the byte layer and json of strax.storage.files (and the save/load entry points looked up on the strax
+    package).  Returns the HandleStore."""
+    import strax
+    import strax.storage.files as sf
+    import strax.storage.file_rechunker as fr
+
+    hs, js = HandleStore(), JsonShim()
+    inj.set(strax, "save_file", hs.save_file)
+    inj.set(strax, "load_file", hs.load_file)
+    inj.inject(sf, json=js, print=lambda *a, **k: None)
+    if "json" in fr.__dict__:
+        inj.inject(fr, json=js)
+    if "np" in sf.__dict__:
+        inj.inject_default(sf, which=("np",))
+    return hs, js
